@@ -66,11 +66,15 @@ def run_impl(ctx, driver, casefile, nprocs=0, env=None, timeout=900, args=()):
     return rc, parse_out(out), out, err
 
 
+DRAIN_DEFAULT = "0"
+
 def run_impl_lines(ctx, driver, lines, nprocs=0, env=None, timeout=900, args=(), name="cases", max_restarts=12):
     """Run the driver over case lines; when the process dies, the first case without output is recorded as
        crashed ('CRASH' result) and the remaining cases are re-run in a fresh process."""
     results = {}; crashed = []
     todo = list(lines); n = 0; hangs = 0
+    if nprocs and os.environ.get("VERIF_DRAIN", DRAIN_DEFAULT) != "0":
+        env = dict(env or {}); env["VERIF_DRAIN"] = "1"      # distributed drivers: look for unreceived messages after every case
     if ctx.quick(): timeout = min(timeout, 300)     # a hang must not stall the per-change tier
     while todo and n <= max_restarts and hangs < 2:
         cf = write_cases(ctx, "%s.%d" % (name, n), todo)
@@ -89,6 +93,12 @@ def run_impl_lines(ctx, driver, lines, nprocs=0, env=None, timeout=900, args=(),
         results[cid] = [("CRASH", ["rc=%s" % rc, (err or "")[-200:].replace("\n", " ")])]
         crashed.append(cid)
         todo = todo[first + 1:]; n += 1
+    for cid, kv in results.items():
+        for key, toks in kv:
+            if key == "STRAYMSG":
+                line = next((l for l in lines if l.split()[0] == cid), cid)
+                ctx.signal("O", "stray_messages:%s" % driver, "messages were sent that no rank received (they stay queued and are matched by a later "
+                           "operation with the same tag): per rank %s" % " ".join(toks), case=line)
     return results, crashed
 
 
